@@ -15,18 +15,22 @@ import (
 	"math/rand"
 	"net"
 	"os"
+	"runtime/pprof"
 	"sort"
 	"strings"
 	"sync"
 	"sync/atomic"
 
 	"github.com/facebookincubator/dns/dnsrocks/db"
+	"github.com/miekg/dns"
 
 	"verifharness/dnsfix"
 	"verifharness/vlib"
 )
 
 const maxAnswer = 8
+
+var stopProf = func() {}
 
 var qtypes = []uint16{tA, tAAAA, tNS, tSOA, tCNAME, tMX, tTXT, tSRV, tPTR, tSVCB, tHTTPS, tSPF, tPRIV, tANY}
 
@@ -52,6 +56,14 @@ func (s *detSource) next() uint64 {
 func (s *detSource) Int63() int64   { return int64(s.next()>>1 | 1<<62) }
 func (s *detSource) Uint64() uint64 { return s.next() | 1<<63 }
 func (s *detSource) Seed(int64)     {}
+
+// query builds a plain IN query (fixed id: no entropy is consumed per query).
+func query(name string, qtype uint16) *dns.Msg {
+	m := new(dns.Msg)
+	m.Id = 4242
+	m.Question = []dns.Question{{Name: name, Qtype: qtype, Qclass: dns.ClassINET}}
+	return m
+}
 
 // file is one enumerated data file.
 type file struct {
@@ -146,17 +158,48 @@ type sample struct {
 	Observed string `json:"observed"`
 }
 
+// probes are asked of every file: the byte-order neighbours of the closest-key walk.
+var probes = []string{"a.example.com.", "a-.example.com.", "a0.example.com.", "aa.example.com.", "ab.a.example.com.", "b.example.com."}
+
+// caseVariants: an existing owner and a name under a wildcard, in mixed case.
+var caseVariants = []string{"WWW.Example.COM.", "NX.W.EXAMPLE.COM."}
+
+func uniq(a []int) []int {
+	out := a[:0]
+	for i, x := range a {
+		if i == 0 || x != a[i-1] {
+			out = append(out, x)
+		}
+	}
+	return out
+}
+
 func main() {
 	r := vlib.Start("C01")
 	dir, clean := vlib.Scratch("c01")
 	dnsfix.Quiet(dir)
 	db.SetRandForVerif(rand.New(&detSource{}))
 
-	maxItems := r.Pick(2, 3)      // optional items per file
-	maxItemsSkelB := r.Pick(1, 2) // with the composite-form skeleton
-	rdbMaxItems := r.Pick(2, 3)   // RocksDB backends are exercised on files up to this size
-	if s := os.Getenv("C01_RDB_MAX_ITEMS"); s != "" {
+	if p := os.Getenv("C01_PROF"); p != "" { // development only
+		pf, _ := os.Create(p)
+		pprof.StartCPUProfile(pf)
+		defer pprof.StopCPUProfile()
+		stopProf = pprof.StopCPUProfile
+	}
+	maxItems := r.Pick(2, 3)                          // optional items per file
+	maxItemsSkelB := r.Pick(1, 2)                     // with the composite-form skeleton
+	rdbMaxItems := r.Pick(2, 3)                       // RocksDB backends are exercised on files up to this size
+	if s := os.Getenv("C01_RDB_MAX_ITEMS"); s != "" { // development knobs; recorded in the evidence when used
 		fmt.Sscan(s, &rdbMaxItems)
+		r.Note("C01_RDB_MAX_ITEMS=%s", s)
+	}
+	if s := os.Getenv("C01_MAX_ITEMS"); s != "" {
+		fmt.Sscan(s, &maxItems)
+		if maxItemsSkelB > maxItems {
+			maxItemsSkelB = maxItems
+		}
+		r.Note("C01_MAX_ITEMS=%s", s)
+		r.Exhaustive = false
 	}
 
 	all := []*Item{}
@@ -169,7 +212,19 @@ func main() {
 	if len(alphabet) > 60 {
 		vlib.Infra("alphabet too large for the 64-bit file mask")
 	}
-	names := universe(all)
+	// The closed name universe of the whole alphabet; files of more than
+	// fullUniverseItems items are asked the names closed over their own records
+	// plus fixed probes (byte-order neighbours, case variants), which are a subset of it.
+	names := append(universe(all), caseVariants...)
+	nameIdx := map[string]int{}
+	for i, n := range names {
+		nameIdx[n] = i
+	}
+	allNames := make([]int, len(names))
+	for i := range names {
+		allNames[i] = i
+	}
+	fullUniverseItems := r.Pick(1, 2)
 	nq := len(names) * len(qtypes)
 
 	// files by size class
@@ -203,10 +258,28 @@ func main() {
 			w := f.world()
 			text := f.text()
 			ids := f.ids()
+			asked := allNames
+			if len(f.items) > fullUniverseItems {
+				its := []*Item{&skeletons[f.skel]}
+				for _, i := range f.items {
+					its = append(its, &alphabet[i])
+				}
+				asked = nil
+				for _, n := range append(append(universe(its), probes...), caseVariants...) {
+					i, ok := nameIdx[n]
+					if !ok {
+						vlib.Infra("name %q of a file is not in the universe", n)
+					}
+					asked = append(asked, i)
+				}
+				sort.Ints(asked)
+				asked = uniq(asked)
+			}
 			exp := make([]*Expect, nq*len(clients))
 			var cc [5]int64
 			var wc, lc, nontriv int64
-			for ni, name := range names {
+			for _, ni := range asked {
+				name := names[ni]
 				for ti, qt := range qtypes {
 					for ci := range clients {
 						e := w.Resolve(name, qt, clients[ci].nip)
@@ -225,7 +298,7 @@ func main() {
 				}
 			}
 			atomic.AddInt64(&nFiles, 1)
-			atomic.AddInt64(&nModel, int64(len(exp)))
+			atomic.AddInt64(&nModel, int64(len(asked)*len(qtypes)*len(clients)))
 			atomic.AddInt64(&nNontrivial, nontriv)
 			atomic.AddInt64(&wildCount, wc)
 			atomic.AddInt64(&locatedCount, lc)
@@ -233,7 +306,7 @@ func main() {
 				atomic.AddInt64(&classCount[i], cc[i])
 			}
 			buf := make([]byte, 4096)
-			pick := (fi*7919 + k*131) % len(exp) // the sampled (query, client) of this file
+			pick := (asked[(fi*7919+k*131)%len(asked)]*len(qtypes)+fi%len(qtypes))*len(clients) + fi%len(clients) // the sampled (query, client) of this file
 			for _, b := range dnsfix.Backends {
 				if b != dnsfix.CDB && len(f.items) > rdbMaxItems {
 					continue
@@ -255,12 +328,13 @@ func main() {
 				}
 				atomic.AddInt64(&nDBs, 1)
 				var served, failing, minimal int64
-				for ni, name := range names {
+				for _, ni := range asked {
+					name := names[ni]
 					for ti, qt := range qtypes {
 						for ci := range clients {
 							idx := (ni*len(qtypes)+ti)*len(clients) + ci
 							e := exp[idx]
-							res := h.Serve(dnsfix.Query(name, qt), clients[ci].ip, false, maxAnswer)
+							res := h.Serve(query(name, qt), clients[ci].ip, false, maxAnswer)
 							served++
 							v := compare(w, name, e, res, buf)
 							if idx == pick && b == dnsfix.Backends[fi%len(dnsfix.Backends)] {
@@ -308,6 +382,7 @@ func main() {
 	r.Set("max_items_per_file_composite_skeleton", maxItemsSkelB)
 	r.Set("rocksdb_max_items_per_file", rdbMaxItems)
 	r.Set("names", len(names))
+	r.Set("full_universe_for_files_up_to_items", fullUniverseItems)
 	r.Set("qtypes", len(qtypes))
 	r.Set("clients", len(clients))
 	r.Set("backends", len(dnsfix.Backends))
@@ -321,12 +396,13 @@ func main() {
 	r.Set("expected_for_located_client", locatedCount)
 	r.Set("failing_comparisons", nFailing)
 	r.Set("minimal_failing_cases", nMinimal)
-	r.Set("rule", fmt.Sprintf("data file = skeleton (apex example.com SOA+NS as Z+& lines, or as one '.' line for files of <=%d items; resolver maps Mexample.com/M*.example.com -> m1, %%aa 10/8, %%bb 192.168/16) + every subset of <=%d of %d alphabet items (each item = text lines + hand-written structured records); each file compiled by the real compilers for cdb, rdb-v1, rdb-v2 (RocksDB for files of <=%d items), opened by the real handler and asked every name of the closed universe (%d names: owners, targets, ancestors, a fresh sibling nx under every node, under-wildcard names, two case variants) x %d qtypes x %d clients with maxAnswer=%d; each response compared with the reference interpreter. states = databases compiled and opened; transitions = evaluations = queries served and compared; distinct_nontrivial = (file, query, client) triples whose prescribed outcome is a referral, a NODATA or a positive answer (i.e. neither REFUSED nor NXDOMAIN); a failing case is reported only if no sub-file fails the same (backend, query, client, kind)", maxItemsSkelB, maxItems, len(alphabet), rdbMaxItems, len(names), len(qtypes), len(clients), maxAnswer))
+	r.Set("rule", fmt.Sprintf("data file = skeleton (apex example.com SOA+NS as Z+& lines, or as one '.' line for files of <=%d items; resolver maps Mexample.com/M*.example.com -> m1, %%aa 10/8, %%bb 192.168/16) + every subset of <=%d of %d alphabet items (each item = text lines + hand-written structured records); each file compiled by the real compilers for cdb, rdb-v1, rdb-v2 (RocksDB for files of <=%d items), opened by the real handler and asked every name of the closed universe (%d names: owners, targets, ancestors, a fresh sibling nx under every node, under-wildcard names, two case variants; files of more than %d items are asked the sub-universe closed over their own records plus 6 byte-order-neighbour probes and the case variants, so every sub-file of a reported case was asked the same query) x %d qtypes x %d clients with maxAnswer=%d; each response compared with the reference interpreter. states = databases compiled and opened; transitions = evaluations = queries served and compared; distinct_nontrivial = (file, query, client) triples whose prescribed outcome is a referral, a NODATA or a positive answer (i.e. neither REFUSED nor NXDOMAIN); a failing case is reported only if no sub-file fails the same (backend, query, client, kind)", maxItemsSkelB, maxItems, len(alphabet), rdbMaxItems, len(names), fullUniverseItems, len(qtypes), len(clients), maxAnswer))
 	r.Assume = []string{
 		"the weighted-selection random source is replaced by a deterministic one that never draws the edge value 0 (C11 covers the draws); all address records have weight 1 and maxAnswer >= candidates, so the answer set is independent of the draws",
 		"not compared (statement silent): additional section of positive answers beyond soundness, RR class, order within a section, DS at a delegation, ANY beyond answer being a sub-multiset of the visible records of the name, TXT chunk boundaries",
 		"names outside the universe, more interacting items than the bound, query class other than IN, EDNS/ECS queries are not covered",
 	}
 	clean()
+	stopProf()
 	r.Finish()
 }
